@@ -115,6 +115,64 @@ fn jrt<T: SwiftMessageBody + serde::de::DeserializeOwned + PartialEq>(raw: &str)
     }
 }
 
+thread_local! {
+    /// the entry point being exercised (reported with a panic)
+    pub static STAGE: std::cell::RefCell<String> = const { std::cell::RefCell::new(String::new()) };
+}
+fn stage(s: &str) {
+    STAGE.with(|x| *x.borrow_mut() = s.to_string());
+}
+
+/// every way the library renders a ParseError
+fn render(e: &ParseError, original: &str) -> usize {
+    e.to_string().len() + e.debug_report().len() + e.brief_message().len() + e.format_with_context(original).len()
+        + serde_json::to_string(e).map(|x| x.len()).unwrap_or(0) + format!("{:?}", e).len()
+}
+
+fn total_typed<T: SwiftMessageBody + serde::de::DeserializeOwned>(name: &str, t: &str, n: &mut (u64, u64)) {
+    stage(&format!("SwiftParser::parse::<{name}>"));
+    match SwiftParser::parse::<T>(t) {
+        Ok(m) => {
+            n.0 += 1;
+            stage(&format!("{name}: to_mt_message")); let mt = m.to_mt_message();
+            stage(&format!("{name}: validate")); let _ = m.validate();
+            stage(&format!("{name}: to_value")); let v = serde_json::to_value(&m).unwrap_or(Value::Null);
+            stage(&format!("{name}: from_value")); let _ = serde_json::from_value::<swift_mt_message::SwiftMessage<T>>(v);
+            stage(&format!("{name}: reparse")); let _ = SwiftParser::parse::<T>(&mt);
+        }
+        Err(e) => { n.1 += 1; stage(&format!("{name}: render error")); render(&e, t); }
+    }
+    stage(&format!("{name}::parse_from_block4"));
+    match <T as SwiftMessageBody>::parse_from_block4(t) {
+        Ok(m) => {
+            n.0 += 1;
+            stage(&format!("{name}: to_mt_string")); let _ = m.to_mt_string();
+            stage(&format!("{name}: validate_network_rules")); let a = m.validate_network_rules(false); let _ = m.validate_network_rules(true);
+            for e in &a { let _ = (e.to_string(), e.error_code().to_string(), serde_json::to_value(e).ok()); }
+            stage(&format!("{name}: body to_value")); let v = serde_json::to_value(&m).unwrap_or(Value::Null);
+            stage(&format!("{name}: body from_value")); let _ = serde_json::from_value::<T>(v);
+        }
+        Err(e) => { n.1 += 1; stage(&format!("{name}: render error")); render(&e, t); }
+    }
+}
+
+fn total_field<T: SwiftField>(name: &str, t: &str, n: &mut (u64, u64)) {
+    for letter in [None, Some("A"), Some(""), Some("Z")] {
+        stage(&format!("{name}::parse_with_variant({letter:?})"));
+        let r = match letter { None => <T as SwiftField>::parse(t), l => <T as SwiftField>::parse_with_variant(t, l, None) };
+        match r {
+            Ok(v) => {
+                n.0 += 1;
+                stage(&format!("{name}: to_swift_string")); let _ = v.to_swift_string();
+                stage(&format!("{name}: to_value")); let j = serde_json::to_value(&v).unwrap_or(Value::Null);
+                stage(&format!("{name}: from_value")); let _ = serde_json::from_value::<T>(j);
+                let _ = format!("{:?}", v);
+            }
+            Err(e) => { n.1 += 1; stage(&format!("{name}: render error")); render(&e, t); }
+        }
+    }
+}
+
 fn custom(name: &str, input: Value) -> FunctionConfig {
     FunctionConfig::Custom { name: name.to_string(), input }
 }
@@ -140,6 +198,71 @@ pub fn run(rt: &tokio::runtime::Runtime, cols: &[&str]) -> Value {
                 Err(e) => return json!({"bad_case": e}),
             };
             with_mt!(cols[1], T => typed::<T>(&raw), json!({"bad_case": "unknown type"}))
+        }
+        // total <hex text> <msg|fields|all>: the text through every public entry point; every value that comes back through
+        // serialisation, validation, JSON conversion, every error through every rendering
+        "total" => {
+            let t = match unhex_str(cols[1]) {
+                Ok(s) => s,
+                Err(e) => return json!({"bad_case": e}),
+            };
+            let mode = cols.get(2).copied().unwrap_or("all");
+            let mut n = (0u64, 0u64);
+            if mode != "fields" {
+                stage("SwiftParser::parse_auto");
+                match SwiftParser::parse_auto(&t) {
+                    Ok(p) => { n.0 += 1; stage("auto: validate"); let _ = p.validate(); stage("auto: to_value"); let v = serde_json::to_value(&p).unwrap_or(Value::Null);
+                               stage("auto: from_value"); let _ = serde_json::from_value::<swift_mt_message::ParsedSwiftMessage>(v); stage("auto: message_type"); let _ = p.message_type(); }
+                    Err(e) => { n.1 += 1; stage("auto: render error"); render(&e, &t); }
+                }
+                for i in 0u8..=6 {
+                    stage("SwiftParser::extract_block");
+                    if let Err(e) = SwiftParser::extract_block(&t, i) { render(&e, &t); }
+                }
+                stage("BasicHeader::parse");
+                match swift_mt_message::BasicHeader::parse(&t) { Ok(h) => { n.0 += 1; let _ = h.to_string(); let v = serde_json::to_value(&h).unwrap_or(Value::Null); let _ = serde_json::from_value::<swift_mt_message::BasicHeader>(v); } Err(e) => { n.1 += 1; render(&e, &t); } }
+                stage("ApplicationHeader::parse");
+                match swift_mt_message::ApplicationHeader::parse(&t) { Ok(h) => { n.0 += 1; let _ = (h.to_string(), h.message_type().to_string()); let v = serde_json::to_value(&h).unwrap_or(Value::Null); let _ = serde_json::from_value::<swift_mt_message::ApplicationHeader>(v); } Err(e) => { n.1 += 1; render(&e, &t); } }
+                stage("UserHeader::parse");
+                match swift_mt_message::UserHeader::parse(&t) { Ok(h) => { n.0 += 1; let _ = h.to_string(); let v = serde_json::to_value(&h).unwrap_or(Value::Null); let _ = serde_json::from_value::<swift_mt_message::UserHeader>(v); } Err(e) => { n.1 += 1; render(&e, &t); } }
+                stage("Trailer::parse");
+                match swift_mt_message::Trailer::parse(&t) { Ok(h) => { n.0 += 1; let _ = h.to_string(); let v = serde_json::to_value(&h).unwrap_or(Value::Null); let _ = serde_json::from_value::<swift_mt_message::Trailer>(v); } Err(e) => { n.1 += 1; render(&e, &t); } }
+                for name in crate::mt::ALL {
+                    with_mt!(*name, T => total_typed::<T>(name, &t, &mut n), ());
+                }
+                stage("parse_block4_fields");
+                match swift_mt_message::parser::parse_block4_fields(&t) {
+                    Ok(f) => {
+                        n.0 += 1;
+                        let mut tr = swift_mt_message::parser::FieldConsumptionTracker::new();
+                        for tag in ["20", "21", "50", "52", "59", "32", "71", "23"] {
+                            for vs in [None, Some(&["A", "F", "K"][..]), Some(&["C", "L"][..])] {
+                                stage("find_field_with_variant_sequential_constrained");
+                                let _ = swift_mt_message::parser::find_field_with_variant_sequential_constrained(&f, tag, &mut tr, vs);
+                            }
+                        }
+                        for cfg in ["MT101", "MT104", "MT107", "MT110", "MT204", "MT999"] {
+                            stage("split_into_sequences");
+                            let _ = swift_mt_message::parser::split_into_sequences(&f, &swift_mt_message::parser::get_sequence_config(cfg));
+                        }
+                    }
+                    Err(e) => { n.1 += 1; render(&e, &t); }
+                }
+                stage("extract_field_content");
+                for tag in ["20", "50K", "72"] { let _ = swift_mt_message::parser::extract_field_content(&t, tag); }
+            }
+            if mode != "msg" {
+                for name in crate::fields_gen::ALL {
+                    with_field!(*name, T => total_field::<T>(name, &t, &mut n), ());
+                }
+                stage("swift_utils");
+                let _ = swift_mt_message::fields::swift_utils::parse_amount(&t);
+                let _ = swift_mt_message::fields::swift_utils::parse_bic(&t);
+                let _ = swift_mt_message::fields::swift_utils::parse_date_yymmdd(&t);
+                let _ = swift_mt_message::fields::swift_utils::parse_currency(&t);
+            }
+            stage("");
+            json!({"ok": true, "values": n.0, "errors": n.1})
         }
         // jrt <MTnnn> <hex raw message>: JSON round trip of the parsed message
         "jrt" => {
